@@ -12,11 +12,17 @@
                                                     with the harness's relabelling `g`; hypothesis and
                                                     conclusions of the phase-2 theorems evaluated
 
+  c02stored <fields f>                              `Resid.storedHyp f` (core-only copy `Resid2.storedHypB`): Sep ∧
+                                                    Distinguishable of the mesh AS STORED + centre slack
+  c02noisy  <fields f> <fields f'> <n> ρ… <k> (<n> κ…)*k   f' = f with noisy coordinates; `Resid2.noisyFullHyp`
+                                                    and the ladder on the noisy relabelled pair in both roles
+
   `argsort` is instantiated twice (stable merge sort; the same with reversed tie order);
   `tie=1` says that both instantiations gave the same observable.
 -/
 import Driver.ProtoMesh
 import FcModel.Spec.C02
+import FcModel.Spec.Resid2
 namespace Fc.Drv.C02
 open Fc Fc.Drv Fc.C02
 
@@ -157,7 +163,41 @@ def opRelabel : P String := do
   let pass := Spec.ladderPasses (ladder argsortStable argsortRevTies pyTupleHash {} x f) &&
     Spec.ladderPasses (ladder argsortRevTies argsortStable pyTupleHash {} f x)
   let cont := Spec.continuousHyp f
-  pure s!"hyp={showBool hyp} model={showBool (decide (x = g))} canon={showBool canon} rigid={showBool rigid} cont={showBool cont} pass={showBool pass} spec=-"
+  -- phase 4 (appended fields; the meaning of the fields above is unchanged):
+  -- `spt` = `Spec.pointHyp` of the mesh AS STORED (orphans included; excludes coincident orphan points, the
+  -- counterexample to `hrigid` under `baseHyp` alone), `stored` = `Resid.storedHyp f` (`spt` ∧ centre slack)
+  let spt := Spec.pointHyp t f.mesh
+  let stored := Resid2.storedHypB f
+  pure s!"hyp={showBool hyp} model={showBool (decide (x = g))} canon={showBool canon} rigid={showBool rigid} cont={showBool cont} pass={showBool pass} spt={showBool spt} stored={showBool stored} spec=-"
+
+/-- `hyp` = `Resid.storedHyp f` (evaluated through the core-only copy `Resid2.storedHypB`, proved equal in
+    FcProofs/Lemmas/Resid2Hyp.lean); `model` = its first conjunct `Spec.pointHyp` of the stored mesh -/
+def opStored : P String := do
+  let f ← pMeshFields
+  let t := meshTolOf f.mesh
+  pure s!"hyp={showBool (Resid2.storedHypB f)} model={showBool (Spec.pointHyp t f.mesh)} spec=-"
+
+/-- noisy relabelled pair: `f'` must be `f` with other coordinates (`same`); `hyp` = `Resid2.noisyFullHyp` ∧ the
+    maps are permutations (the complete decidable hypothesis of `C02_no_false_fail_noisy_decidable`); `pass` = the
+    ladder passes on `(relabelF ρ κ f', f)` and on `(f, relabelF ρ κ f')` (two argsorts); `model` = the noisy
+    relabelled data set the ladder was run on, for comparison with the harness's -/
+def opNoisy : P String := do
+  let f ← pMeshFields
+  let f' ← pMeshFields
+  let ρ ← pList pNat
+  let κs ← pList (pList pNat)
+  let g ← pMeshFields
+  let κ : String → List Nat := fun ct => ((f.mesh.cellTypes.zip κs).lookup ct).getD []
+  let P' := f'.mesh.points
+  let same := decide (Resid2.withPoints f P' = f')
+  let x := Spec.relabelF ρ κ (Resid2.withPoints f P')
+  let idp := List.range f.mesh.points.length
+  let mapsOk := ρ.isPerm idp && decide (κs.length = f.mesh.cells.length) &&
+    f.mesh.cells.all fun b => (κ b.1).isPerm (List.range b.2.length)
+  let hyp := same && mapsOk && Resid2.noisyFullHyp pyTupleHash f P'
+  let pass := Spec.ladderPasses (ladder argsortStable argsortRevTies pyTupleHash {} x f) &&
+    Spec.ladderPasses (ladder argsortRevTies argsortStable pyTupleHash {} f x)
+  pure s!"hyp={showBool hyp} model={showBool (decide (x = g))} same={showBool same} pass={showBool pass} spec=-"
 
 def handleC02 (op : String) : Option (P String) :=
   match op with
@@ -169,6 +209,8 @@ def handleC02 (op : String) : Option (P String) :=
   | "c02centre" => some opCentre
   | "c02hash" => some opHash
   | "c02relabel" => some opRelabel
+  | "c02stored" => some opStored
+  | "c02noisy" => some opNoisy
   | _ => none
 
 end Fc.Drv.C02
